@@ -19,6 +19,9 @@ type reslibCase struct {
 	Kind string   `json:"kind"` // table | recordio | mmap | wal | super
 	Ops  []string `json:"ops"`  // scan | scanabandon | range | rangeabandon | get | readsome | readall
 	N    int      `json:"n"`
+	Loader string `json:"loader"` // table / super: index loader ("" default | disk | map | skiplist | slice)
+	Hash   string `json:"hash"`   // "" (verify on load) | read (verify on read)
+	Damage string `json:"damage"` // tablefail: "trunc" | "flip" - the open is expected to fail and must not keep anything open
 }
 
 type reslibIn struct {
@@ -80,7 +83,21 @@ func runResLib(args []string) error {
 				if err := mkTable(d, n); err != nil {
 					return err
 				}
-				r, err := sstables.NewSSTableReader(sstables.ReadBasePath(d), sstables.ReadWithKeyComparator(cmp))
+				ropts := []sstables.ReadOption{sstables.ReadBasePath(d), sstables.ReadWithKeyComparator(cmp)}
+				switch c.Loader {
+				case "disk":
+					ropts = append(ropts, sstables.ReadIndexLoader(&sstables.DiskIndexLoader{}))
+				case "map":
+					ropts = append(ropts, sstables.ReadIndexLoader(&sstables.MapKeyIndexLoader[string]{ReadBufferSize: 4096, Mapper: strMapper{}}))
+				case "skiplist":
+					ropts = append(ropts, sstables.ReadIndexLoader(&sstables.SkipListIndexLoader{KeyComparator: cmp, ReadBufferSize: 4096}))
+				case "slice":
+					ropts = append(ropts, sstables.ReadIndexLoader(&sstables.SliceKeyIndexLoader{ReadBufferSize: 4096}))
+				}
+				if c.Hash == "read" {
+					ropts = append(ropts, sstables.SkipHashCheckOnLoad(), sstables.EnableHashCheckOnReads())
+				}
+				r, err := sstables.NewSSTableReader(ropts...)
 				if err != nil {
 					return err
 				}
@@ -121,6 +138,35 @@ func runResLib(args []string) error {
 			obs(ci, false, 2*ntab+2*len(c.Ops)*ntab, "after scans")
 			rd.Close()
 			obs(ci, true, 0, "closed")
+		case "tablefail":
+			// a table that cannot be opened (damaged data file): the failed open must not keep descriptors or mappings
+			d := filepath.Join(base, "t0")
+			if err := mkTable(d, n); err != nil {
+				return err
+			}
+			dp := filepath.Join(d, sstables.DataFileName)
+			data, _ := os.ReadFile(dp)
+			if c.Damage == "trunc" {
+				os.WriteFile(dp, data[:len(data)/2], 0o600)
+			} else {
+				data[len(data)-3] ^= 0x55
+				os.WriteFile(dp, data, 0o600)
+			}
+			for _, ld := range []string{"", "disk"} {
+				ropts := []sstables.ReadOption{sstables.ReadBasePath(d), sstables.ReadWithKeyComparator(cmp)}
+				if ld == "disk" {
+					ropts = append(ropts, sstables.ReadIndexLoader(&sstables.DiskIndexLoader{}))
+				}
+				r, err := openReaderSafe(ropts...)
+				if err == nil {
+					r.Close()
+				}
+				// C19 speaks about Close; what a FAILED open leaves behind is recorded, not judged (DESIGN section 6, observations)
+				tr.emit(M{"t": "note", "name": fmt.Sprintf("open of damaged table (%s, loader %q): failed=%v, left open: fds=%d maps=%d", c.Damage, ld, err != nil,
+					countFds(in.Dir), countMaps(in.Dir))})
+			}
+			// later cases count descriptors under the same directory: run the failed opens in a child-free way by forcing a GC of nothing -
+			// the leaked mapping (if any) stays, so these cases come LAST in the case list
 		case "recordio", "mmap":
 			p := filepath.Join(base, "f.rio")
 			w, err := recordio.NewFileWriter(recordio.Path(p))
